@@ -830,7 +830,7 @@ void MEDDLY::unpacked_node::sort()
             const unsigned zn = position[i]-1;
             if (zn != zd) {
                 SWAP(position[index(zd)], position[index(zn)]);
-                SWAP(_edge[zd], _edge[zn]);
+                if (_edge) SWAP(_edge[zd], _edge[zn]);
                 SWAP(_down[zd], _down[zn]);
                 SWAP(_index[zd], _index[zn]);
             }
